@@ -443,9 +443,11 @@ type FuncContract struct {
 	Inline    bool
 	Labels    []*CallAssert // label <name> before <callee> [#k]: names the state before that call for at(name, e) / passed(name)
 	SplitReturns bool // postconditions are checked per return statement (obligations ensures#k.retJ)
+	ChanNonNil bool // channel invariant: only non-nil interface values are sent (obligation at sends), so received values are non-nil (assumed at receives)
 	NoFrame   bool // the modifies clause is what callers see; the body's frame is assumed, not checked (listed)
 	ModifiesAll bool
 	CallAsserts []*CallAssert
+	LoadAsserts []*CallAssert // assert-load <field> : expr   (at every read of a struct field named <field>; $obj)
 	StoreAsserts []*CallAssert // assert-store <field> : expr   (at every store to a struct field named <field>)
 	UpdateAsserts []*CallAssert // assert-update <field> : expr   (at every map update through field <field>)
 }
@@ -512,7 +514,7 @@ type ContractFile struct {
 
 var clauseKeywords = map[string]bool{"requires": true, "ensures": true, "modifies": true, "loop": true, "prop": true, "nopanic": true,
 	"trusted": true, "defines": true, "trusted-ensures": true, "covers": true, "func": true, "extern": true, "pure": true, "rec": true, "uninterp": true, "axiom": true, "lemma": true,
-	"ghost": true, "effectfree": true, "type-invariant": true, "relayed": true, "exempt": true, "import": true, "inline": true, "noframe": true, "splitreturns": true, "label": true, "assert": true, "assert-call": true, "assert-update": true, "assert-store": true}
+	"ghost": true, "effectfree": true, "type-invariant": true, "relayed": true, "exempt": true, "import": true, "inline": true, "noframe": true, "splitreturns": true, "label": true, "assert": true, "assert-call": true, "assert-update": true, "assert-store": true, "assert-load": true, "chan-nonnil": true}
 
 // ParseContractFile reads //@ lines from a file.
 func ParseContractFile(path, pkg string) (*ContractFile, error) {
@@ -607,6 +609,8 @@ func ParseContractText(text, path, pkg string) (*ContractFile, error) {
 			cur.Trusted = true
 		case "inline":
 			cur.Inline = true
+		case "chan-nonnil":
+			cur.ChanNonNil = true
 		case "noframe":
 			cur.NoFrame = true
 		case "splitreturns":
@@ -689,6 +693,20 @@ func ParseContractText(text, path, pkg string) (*ContractFile, error) {
 				return nil, err
 			}
 			cur.UpdateAsserts = append(cur.UpdateAsserts, &CallAssert{Callee: strings.TrimSpace(rest[:k]), Ordinal: -1, C: c})
+		case "assert-load":
+			// assert-load <field> : expr  -- $obj is bound at each read of a struct field named <field> (through a pointer)
+			if cur == nil {
+				return nil, fail(l.n, "assert-load outside func")
+			}
+			k := strings.Index(rest, " : ")
+			if k < 0 {
+				return nil, fail(l.n, "assert-load <field> : <expr>")
+			}
+			c, err := mkClause("assert-load", strings.TrimSpace(rest[k+3:]), l.n)
+			if err != nil {
+				return nil, err
+			}
+			cur.LoadAsserts = append(cur.LoadAsserts, &CallAssert{Callee: strings.TrimSpace(rest[:k]), Ordinal: -1, C: c})
 		case "assert-store":
 			// assert-store <field> : expr  -- $obj, $value, $old are bound at each store to a struct field named <field>
 			if cur == nil {
